@@ -151,6 +151,9 @@ func c02(r *rep.Run) {
 		var nb, nt, tr, ex int64
 		drive.ForBindings(Doms(p.Vars, false), vals, func() bool {
 			nb++
+			if nb%512 == 0 {
+				r.Note(w, p.Src) // progress within one program (many bindings)
+			}
 			env := envFor(p.Vars, vals)
 			r1v, r1e := env.Eval(p.T)
 			env3 := envFor(p.Vars, vals)
